@@ -471,3 +471,42 @@ func evalKindPredicate(fn *ssa.Function, args []int64, depth int) (result bool, 
 	}
 	return false, false
 }
+
+// R-FMTPREC (C02 "the accepted result is exactly the denoted value"): a float that is turned into a string VALUE
+// (the result of an input mapper, not the text of an error message) with a fixed number of decimals is another value:
+// "%f" renders 1e-7 as "0.000000" and 1.5 as "1.500000", so an enum member "1.5" is not found and two distinct map
+// keys collide. Obligation: in everything reachable from Unserialize, a fmt.Sprintf with a fixed-precision float verb
+// whose result is returned as the function's string result. strconv.FormatFloat(v, 'f', -1, bits) is the exact form.
+func (c *Ctx) ruleFmtPrec(rule string) {
+	scope := c.M.Reachable(c.entryData("Unserialize", "UnserializeType"), nil)
+	n := 0
+	for _, fn := range c.M.SortedFuncs(scope) {
+		if !c.scopePkg("schema")[fn] {
+			continue
+		}
+		cnt := 0
+		for _, r := range core.ReturnsOf(fn) {
+			if len(r.Results) == 0 {
+				continue
+			}
+			call, ok := core.RetVal(r, 0).(*ssa.Call)
+			if !ok || core.StaticCalleeName(&call.Call) != "fmt.Sprintf" {
+				continue
+			}
+			format, ok := core.ConstString(call.Call.Args[0])
+			if !ok {
+				continue
+			}
+			n++
+			fixed := strings.Contains(format, "%f") || strings.Contains(format, "%.") || strings.Contains(format, "%e") || strings.Contains(format, "%g")
+			if !fixed {
+				continue
+			}
+			cnt++
+			k := key(rule, c.M.Key(fn), sprintf("formatted value #%d keeps the number", cnt))
+			c.R.Bad(rule, k, c.M.InstrPos(call), "a float is turned into a string value with a fixed-precision verb ("+format+")",
+				"the string is the unserialized VALUE: 1e-7 becomes \"0.000000\", 1.5 becomes \"1.500000\" (not a member of the enum {\"1.5\"}), 0.1234561 and 0.1234562 become the same map key")
+		}
+	}
+	c.R.Ok(rule, key(rule, "schema", "no fixed-precision float rendering is returned as a value"), "-", "string values built with fmt.Sprintf", sprintf("%d Sprintf results returned as values examined in the code reachable from Unserialize", n))
+}
